@@ -123,3 +123,11 @@ Theorem C16_source_host_authority : forall (O : oracles) (B : backend) (u : url)
   gen_host O u = host O u /\ gen_authority O B u = authority O B u.
 Proof. intros O B u. split; [apply gen_host_ok|apply gen_authority_ok]. Qed.
 Print Assumptions C16_source_host_authority.
+
+(** ... and URL.build, another way to put a path under an authority / to write a port / a host
+    (statement and comment: C07_source_build) *)
+From Yarl Require Import Model.Url Model.GenTypes Model.GenQTypes Generated.UrlGen Proofs.GenBuildProofs.
+Theorem C16_source_build : forall (O : oracles) (B : backend) (a : build_args),
+  same_outcome (gen_build O B a) (build O B a).
+Proof. exact gen_build_ok. Qed.
+Print Assumptions C16_source_build.
